@@ -53,7 +53,7 @@ class A(Adapter):
     name = "bin_pack"
     lean = "bin_pack"
     serves = {"C01", "C04", "C05", "C06", "C08", "C09", "C10", "C11", "C12"}
-    ops = ("state", "step", "judge", "instance", "bounds")
+    ops = ("state", "step", "judge", "instance", "bounds", "spec")
     terminate_on_invalid = True
     max_steps = 40
 
@@ -78,6 +78,7 @@ class A(Adapter):
             ]
         out = []
         for n, (cid, gen, obs, norm, dims, const) in enumerate(specs):
+            nitems = int(gen().max_num_items)
             # both reward functions everywhere in the thorough tier; alternate in the quick tier (the partner of
             # each configuration is the same instance under the other reward function, so C08 sees both anyway)
             for dense in ((True, False) if tier != "quick" else ((n % 2 == 0),)):
@@ -87,7 +88,7 @@ class A(Adapter):
                     return _make_env(gen(), obs, not dense, norm)
                 out.append(Config(f"bin_pack-{cid}-{'dense' if dense else 'sparse'}", build,
                                   {"obs_num_ems": obs, "normalize": norm, "dense": dense, "f32": True,
-                                   "tol": rat(1e-5), "container_dims": list(dims)},
+                                   "tol": rat(1e-5), "container_dims": list(dims), "max_num_items": nitems},
                                   dense=dense, partner=partner, constant_generator=const,
                                   max_instances=(3 if const else 10**9)))
         # generator-only configurations (C10): many-way splits of one item — the boundaries of a k-way split are k multiples of
@@ -96,7 +97,8 @@ class A(Adapter):
             def buildg(k=k):
                 return _make_env(RandomGenerator(40, 80, split_num_same_items=k), 40, True, True)
             out.append(Config(f"bin_pack-{cid}", buildg,
-                              {"obs_num_ems": 40, "normalize": True, "dense": True, "f32": True, "tol": rat(1e-5), "container_dims": list(big)},
+                              {"obs_num_ems": 40, "normalize": True, "dense": True, "f32": True, "tol": rat(1e-5), "container_dims": list(big),
+                               "max_num_items": 40},
                               dense=True, partner=None, constant_generator=False, only={"C10"}, instances_factor=(6 if tier == "quick" else 2)))
         return out
 
@@ -152,6 +154,17 @@ class A(Adapter):
         if np.array_equal(np.asarray(s.items_placed), np.asarray(s2.items_placed)):
             return None
         return {"ems": _space(s2.ems), "ems_mask": ser(s2.ems_mask)}
+
+    # ---- wave 4 (hook of the C09 / C12 sweeps): declared specs vs the model's obsSpec / actionSpec (`bin_pack.spec`), the reset
+    # timestep, the observation arrays (`toNValue` layout; float leaves within tolerance), membership (`obs_in_spec` vs
+    # observation_spec.validate) and the invariant SpecInv on implementation states at reset, along play and on the terminal step
+    # (harness/wave4_spec.py; theorems binpack_obsSpec_generated, binpack_*_obs_valid, binpack_specInv_invariant)
+    def synthetic(self, ctx, cfg, env, runner, rng, drv):
+        import wave4_spec as w4
+
+        w4.check_specs(ctx, self, cfg, env, drv)
+        w4.check_reset_and_obs(ctx, self, cfg, env, runner, rng, drv, 2 if ctx.quick else 6, 6 if ctx.quick else 40,
+                               policies=("masked", "uniform"), extra="spec_inv")
 
     def fan_actions(self, env, s, ts, rng, cap=4096):
         """all actions when there are few; otherwise every masked-in action (up to half of the budget) and a random
